@@ -1,5 +1,5 @@
 """C03 - a container used only through its API is never internally damaged."""
-from .. import families, gen, hist, minidb
+from .. import explore, families, gen, hist, minidb
 from ..runner import rng_for
 
 ID = 'C03'
@@ -21,7 +21,9 @@ EVENTS = ['leaf_split', 'interior_split', 'root_split', 'unlink_first',
 
 
 def must_see(tier):
-    m = {'structure-checks': 1000}
+    m = {'structure-checks': 1000, 'explore:closed': 4,
+         'explore:c:closed': 2, 'explore:py:closed': 2,
+         'explore:states': 5000}
     for impl in ('c', 'py'):
         m[impl + ':stored:sweep'] = 300
         m[impl + ':stored:commit'] = 300
@@ -46,10 +48,17 @@ def plan(tier, seed):
             specs.append(dict(label='%s-c-asan' % fam, family=fam, impl='c',
                               histories=30, seed=seed + 1000, tier=tier,
                               variant='asan', timeout=7200))
+    # systematic: every operation in every reachable state of a small
+    # universe (vmon/explore.py)
+    specs += explore.specs_for(ID, tier, seed, ['OO', 'II'],
+                               ['OO', 'II', 'fs', 'LF', 'QO', 'UU', 'OI',
+                                'IO'])
     return specs
 
 
 def run_shard(spec, rec):
+    if spec.get('explore'):
+        return explore.run_shard(ID, spec, rec)
     fam = families.get(spec['family'])
     impl = spec['impl']
     for kind in families.TREE_KINDS:
